@@ -242,10 +242,26 @@ func exportsWidth(run *evid.Run, n *bmnumbers.BMNumber, lit string) {
 			run.Violation("export-width:verilog:"+typ, map[string]any{"literal": lit, "bits": bits, "ExportVerilogBinary": vb})
 		}
 	}
-	for _, nb := range []int{bits, bits + 3, 1, 64} {
+	// the pattern's significant digits (what any wider export must end with, zero-extended)
+	v, _ := valueOf(n)
+	sig := strings.TrimLeft(v, "0")
+	for _, nb := range []int{bits, bits + 3, 1, 63, 64, 65, 100, len(sig), len(sig) - 1} {
+		if nb < 1 {
+			continue
+		}
 		s, err := n.ExportBinaryNBits(nb)
 		if err == nil && len(s) != nb {
 			run.Violation("export-width:nbits:"+typ, map[string]any{"literal": lit, "n": nb, "ExportBinaryNBits": s})
+			continue
+		}
+		switch {
+		case nb >= len(sig) && err != nil:
+			// the value fits n bits: an error is not "exactly n digits"
+			run.Violation("export-width:nbits-refuses-a-value-that-fits:"+typ, map[string]any{"literal": lit, "n": nb, "significant_bits": len(sig), "err": err.Error()})
+		case nb >= len(sig) && strings.TrimLeft(s, "0") != sig:
+			run.Violation("export-width:nbits-changes-the-value:"+typ, map[string]any{"literal": lit, "n": nb, "pattern": v, "ExportBinaryNBits": s})
+		case nb < len(sig) && err == nil:
+			run.Violation("export-width:nbits-truncates:"+typ, map[string]any{"literal": lit, "n": nb, "pattern": v, "ExportBinaryNBits": s})
 		}
 	}
 }
